@@ -487,7 +487,9 @@ impl<'a> PG<'a> {
             return self.leaf_num(sc);
         }
         // candidate callee functions returning a number
-        let callees: Vec<FnSig> = self.fns.iter().filter(|f| f.ret == Ty::Num && !f.maker && (sc.allow_state || !f.stateful) && (self.cfg.state_in_branches || !sc.in_branch || !f.stateful)).cloned().collect();
+        // inside a lambda no function that takes a function is called: nesting such calls makes the
+        // running time exponential in the nesting depth
+        let callees: Vec<FnSig> = self.fns.iter().filter(|f| f.ret == Ty::Num && !f.maker && (sc.allow_state || !f.stateful) && (self.cfg.state_in_branches || !sc.in_branch || !f.stateful) && !(sc.in_lambda && f.params.iter().any(|p| matches!(p, Ty::Fun(..))))).cloned().collect();
         let tup_vars: Vec<VarInfo> = sc.vars.iter().chain(self.globals.iter()).filter(|v| matches!(&v.ty, Ty::Tup(ts) if ts.iter().all(|t| *t == Ty::Num))).cloned().collect();
         let rec_vars: Vec<VarInfo> = sc.vars.iter().chain(self.globals.iter()).filter(|v| matches!(&v.ty, Ty::Rec(_))).cloned().collect();
         let clo_vars: Vec<VarInfo> = sc.vars.iter().chain(self.globals.iter()).filter(|v| matches!(&v.ty, Ty::Fun(_, r) if **r == Ty::Num)).cloned().collect();
